@@ -67,6 +67,12 @@ macro_rules! value {
 //         .collect()
 // }
 
+/// Converts a template quantity into the integer type of a ledger field, failing instead of
+/// wrapping or truncating when the field cannot hold it.
+fn quantity_into<T: TryFrom<i128>>(amount: i128, field: &str) -> Result<T, Error> {
+    T::try_from(amount).map_err(|_| Error::CoerceError(amount.to_string(), field.to_string()))
+}
+
 fn compile_struct(ir: &tir::StructExpr) -> Result<primitives::PlutusData, Error> {
     let fields = ir
         .fields
@@ -101,7 +107,9 @@ fn compile_native_asset_for_output(
     let policy = primitives::Hash::from(policy.as_slice());
     let asset_name = coercion::expr_into_bytes(&ir.asset_name)?;
     let amount = coercion::expr_into_number(&ir.amount)?;
-    let amount = primitives::PositiveCoin::try_from(amount as u64).unwrap();
+    let amount: u64 = quantity_into(amount, "native asset amount")?;
+    let amount = primitives::PositiveCoin::try_from(amount)
+        .map_err(|_| Error::CoerceError(amount.to_string(), "positive asset amount".to_string()))?;
 
     let asset = asset!(policy, asset_name.clone(), amount);
 
@@ -117,11 +125,12 @@ fn compile_native_asset_for_mint(
     let asset_name = coercion::expr_into_bytes(&ir.asset_name)?;
     let amount = coercion::expr_into_number(&ir.amount)?;
 
-    let amount = if !is_burn {
-        primitives::NonZeroInt::try_from(amount as i64).unwrap()
-    } else {
-        primitives::NonZeroInt::try_from(-amount as i64).unwrap()
-    };
+    let amount = if !is_burn { Some(amount) } else { amount.checked_neg() };
+    let amount: i64 = amount
+        .ok_or_else(|| Error::CoerceError("burn amount".to_string(), "mint quantity".to_string()))
+        .and_then(|x| quantity_into(x, "mint quantity"))?;
+    let amount = primitives::NonZeroInt::try_from(amount)
+        .map_err(|_| Error::CoerceError(amount.to_string(), "non-zero mint quantity".to_string()))?;
 
     let asset = asset!(policy, asset_name.clone(), amount);
 
@@ -138,12 +147,45 @@ fn compile_value(ir: &tir::AssetExpr) -> Result<primitives::Value, Error> {
     let amount = coercion::expr_into_number(&ir.amount)?;
     if ir.policy.is_none() {
         compile_ada_value(ir)
-    } else if amount as i64 > 0 {
+    } else if amount > 0 {
         let asset = compile_native_asset_for_output(ir)?;
         Ok(value!(0, asset))
     } else {
         Ok(value!(0))
     }
+}
+
+/// The parts of an output value are aggregated per asset class; the totals must still fit
+/// the ledger's 64-bit quantities.
+fn check_value_total(values: &[primitives::Value]) -> Result<(), Error> {
+    let mut coin: u128 = 0;
+    let mut assets: BTreeMap<(primitives::PolicyId, Vec<u8>), u128> = BTreeMap::new();
+
+    for value in values {
+        match value {
+            primitives::Value::Coin(x) => coin += *x as u128,
+            primitives::Value::Multiasset(x, ma) => {
+                coin += *x as u128;
+                for (policy, names) in ma.iter() {
+                    for (name, amount) in names.iter() {
+                        *assets.entry((*policy, name.to_vec())).or_default() +=
+                            u64::from(*amount) as u128;
+                    }
+                }
+            }
+        }
+    }
+
+    let too_big = |x: &u128| *x > u64::MAX as u128;
+
+    if too_big(&coin) || assets.values().any(too_big) {
+        return Err(Error::CoerceError(
+            "aggregated output value".to_string(),
+            "64-bit quantity".to_string(),
+        ));
+    }
+
+    Ok(())
 }
 
 fn compile_adhoc_script(
@@ -200,6 +242,8 @@ fn compile_output_block(
         .iter()
         .map(compile_value)
         .collect::<Result<Vec<_>, _>>()?;
+
+    check_value_total(&values)?;
 
     let value = asset_math::aggregate_values(values);
 
@@ -327,6 +371,7 @@ pub fn compile_cardano_publish_directive(
         .iter()
         .map(compile_value)
         .collect::<Result<Vec<_>, _>>()?;
+    check_value_total(&values)?;
     let value = asset_math::aggregate_values(values);
 
     let datum_option = adhoc.data.get("datum").map(compile_data_expr).transpose()?;
@@ -383,7 +428,7 @@ pub fn compile_withdrawal_directive(
         .get("amount")
         .ok_or(Error::MissingExpression("withdrawal amount".to_string()))?;
     let amount = coercion::expr_into_number(amount)?;
-    let amount = primitives::Coin::try_from(amount as u64).unwrap();
+    let amount: primitives::Coin = quantity_into(amount, "withdrawal amount")?;
 
     Ok((credential, amount))
 }
@@ -478,13 +523,15 @@ fn compile_validity(validity: Option<&tir::Validity>) -> Result<(Option<u64>, Op
         .and_then(|v| v.since.as_option())
         .map(coercion::expr_into_number)
         .transpose()?
-        .map(|n| n as u64);
+        .map(|n| quantity_into(n, "validity start slot"))
+        .transpose()?;
 
     let until = validity
         .and_then(|v| v.until.as_option())
         .map(coercion::expr_into_number)
         .transpose()?
-        .map(|n| n as u64);
+        .map(|n| quantity_into(n, "ttl slot"))
+        .transpose()?;
 
     Ok((since, until))
 }
@@ -497,7 +544,8 @@ fn compile_donation(tx: &tir::Tx) -> Result<Option<pallas::codec::utils::Positiv
         .map(coercion::expr_into_number)
         .transpose()?
         .map(|amount| {
-            pallas::codec::utils::PositiveCoin::try_from(amount as u64).map_err(|_| {
+            let coin: u64 = quantity_into(amount, "donation amount")?;
+            pallas::codec::utils::PositiveCoin::try_from(coin).map_err(|_| {
                 Error::CoerceError(
                     format!("Invalid donation amount: {}", amount),
                     "PositiveCoin".to_string(),
@@ -516,7 +564,7 @@ fn compile_tx_body(
     let out = primitives::TransactionBody {
         inputs: compile_inputs(tx)?.into(),
         outputs: compile_outputs(tx, network)?,
-        fee: coercion::expr_into_number(&tx.fees)? as u64,
+        fee: quantity_into(coercion::expr_into_number(&tx.fees)?, "fee")?,
         certificates: primitives::NonEmptySet::from_vec(compile_certs(tx, network)?),
         mint: compile_mint_block(tx)?,
         reference_inputs: primitives::NonEmptySet::from_vec(compile_reference_inputs(tx)?),
@@ -545,7 +593,7 @@ fn compile_auxiliary_data(tx: &tir::Tx) -> Result<Option<primitives::AuxiliaryDa
         .metadata
         .into_iter()
         .map(|x| {
-            let key = expr_into_number(&x.key)? as u64;
+            let key: u64 = quantity_into(expr_into_number(&x.key)?, "metadata label")?;
             let value = expr_into_metadatum(&x.value)?;
             Ok((key, value))
         })
